@@ -93,7 +93,7 @@ struct Tracked {
     return *this;
   }
   ~Tracked() {
-    st = 3;
+    *const_cast<volatile int*>(&st) = 3;  // (a plain store would be a dead store to the optimiser)
   }
 };
 
@@ -227,6 +227,16 @@ void CheckGot(const char* what, long code) {
   }
 }
 
+// what Ready()/await_ready() would answer right now, asked outside the explored execution (no switch point, no
+// trace entry): used only to avoid running undefined behaviour after a violation has been established
+bool PeekReady(const SF& f) {
+  bool was = vrt::g.active;
+  vrt::g.active = false;
+  bool b = f.Ready();
+  vrt::g.active = was;
+  return b;
+}
+
 #if YACLIB_CORO != 0
 yaclib::Future<> Awaiter(const SF& f, CbRec* rec, std::string src, std::string hname) {
   // the awaiter object holds its own copy of the shared state for the duration of the co_await expression
@@ -255,11 +265,13 @@ void Observer(int oi, SF f, const std::string& ops, Run& run, CountingInline& ex
   auto cbname = [&] {
     return "c" + std::to_string(oi) + "_" + std::to_string(n++);
   };
-  auto ready = [&] {
+  bool early = false;  // the last Ready() answered true although nothing was set yet
+  auto ready = [&](bool report) {
     vrt::Event("ready " + h);
     bool b = f.Ready();
     vrt::Event(std::string("ready=") + (b ? "1" : "0"));
-    if (b && !U.set_started) {
+    early = b && !U.set_started;
+    if (early && report) {
       vrt::Fail("Ready()==true before the value was set");
     }
     return b;
@@ -270,22 +282,25 @@ void Observer(int oi, SF f, const std::string& ops, Run& run, CountingInline& ex
     }
     switch (op) {
       case 'r':
-        (void)ready();
+        (void)ready(true);
         break;
-      case 'p':
-        if (ready()) {
+      case 'p':  // the documented idiom on a copy that attaches nothing itself: if (f.Ready()) use(f.Touch())
+        if (ready(false)) {
           vrt::Event("touch " + h);
           const R& r = f.Touch();
           long code = Code(r);
           vrt::Event("got " + std::to_string(code));
-          if (code != U.expected) {
+          if (early) {
+            vrt::Fail("Ready()==true before the value was set, then Touch() read " + std::to_string(code) +
+                      (code == U.expected ? "" : " (garbage; " + std::to_string(U.expected) + " is set later)"));
+          } else if (code != U.expected) {
             vrt::Fail("Ready()==true but Touch() read " + std::to_string(code) + " (" + std::to_string(U.expected) +
-                      (U.set_started ? " was set)" : " is being set later)"));
+                      " was set)");
           }
         }
         break;
       case 'T':
-        if (ready()) {
+        if (ready(true) && !early) {  // (copying an unconstructed Result out would be undefined behaviour)
           vrt::Event("touchmv " + h);
           R r = std::move(f).Touch();
           long code = Code(r);
@@ -372,6 +387,10 @@ void Observer(int oi, SF f, const std::string& ops, Run& run, CountingInline& ex
       }
 #if YACLIB_CORO != 0
       case 'a': {
+        if (!U.set_started && PeekReady(f)) {  // await_resume would copy an unconstructed Result: report, do not run it
+          vrt::Fail("await_ready()==true before the value was set");
+          break;
+        }
         auto& rec = run.NewCb(cbname());
         auto co = Awaiter(f, &rec, h, h + "a" + std::to_string(n));
         vrt::Event("attached");
@@ -461,6 +480,9 @@ void RunPlan(const Plan& plan) {
   auto* counter = static_cast<Counter*>(core);
   U.lo = reinterpret_cast<const char*>(counter);
   U.hi = U.lo + sizeof(yaclib::detail::Helper<yaclib::detail::AtomicCounter, CoreT>);
+  // the slot is a union member, unconstructed until Store: make "unconstructed" recognisable (the allocator hands
+  // back the block of the previous execution, which still holds the previous value)
+  std::memset(static_cast<void*>(&core->_result), 0xEE, sizeof(core->_result));
   vrt::NameLoc(&core->_callback, "w", FmtWord);
   vrt::NameLoc(&counter->count, "rc", FmtCount);
   vrt::Event(std::string("init ") + (f0 ? "1" : "0") + " " + std::to_string(U.expected));
